@@ -107,7 +107,7 @@ def run_check(tier, seed):
         # ---- S4b: API scripts with the burst buffer enabled against the driver-independent specification
         exe = apicmp.build_apirun(tree, wd)
         bbdir = os.path.join(wd, 'bblogs')
-        nprog = 80 if tier == 'thorough' else 20
+        nprog = 90 if tier == 'thorough' else 25
         api_lines, tags = 0, {}
         samples = []
         leftovers = 0
@@ -125,7 +125,7 @@ def run_check(tier, seed):
                 hints += ';nc_burst_buf_shared_logs=enable'
             if retain:
                 hints += ';nc_burst_buf_del_on_close=disable'
-            if k % 5 == 3:
+            if k % 5 in (1, 3):
                 # metadata in define and data mode, redefinition, cancel, flush, second session (ncbbio_open) ending in close or abort.
                 # The reopening session sometimes runs WITHOUT the burst buffer: a file written through it is an ordinary file
                 p = apigen.gen_meta_program(rng, 'c12_%d.nc' % k, nprocs, hints=hints, ohints=(hints if rng.chance(2, 3) else '-'), flush_each=True, cancel_rec=False)
